@@ -1,6 +1,7 @@
 (* C20 -- User-configured checks are enforced exactly.  Property theorems only. *)
 From Coq Require Import List NArith Bool.
 From FP Require Import Model.Base Model.ItsWords Model.Rdh Model.RdhChecks Model.Alpide Model.CdpRunning Model.Collector Proofs.C13_frame Proofs.C20_proofs.
+From FP Require Import Model.Scanner Model.System Spec.Framing Spec.GroundTruth Proofs.C03_proofs Proofs.C14_proofs Proofs.C20_run.
 From FP Require Gen.Facts.
 Import ListNotations.
 Open Scope N_scope.
@@ -59,6 +60,16 @@ Proof. exact replace_tdh_run. Qed.
 Theorem C20_period_out_of_range : detected_period 0 4000 = 65100.
 Proof. exact c20_period_out_of_range. Qed.
 
+(* ONE WHOLE `check` RUN on a well-framed input (any filter, mode, option): the end-of-run custom checks against the ground truth of the
+   input -- [E9001] is among the stored custom-check messages iff a packet count is configured and differs from the number of RDHs of
+   the input (all of them: skipped ones included); [E9002] iff a physics-trigger count is configured and differs from the number of
+   ANALYSED packets whose trigger type has bit 4 *)
+Theorem C20_whole_run_counts : forall c pkts ff s shown e, Forall wf_pkt pkts -> N.of_nat (length pkts) < U32_MAX -> pay_all pkts < U32_MAX ->
+  run_check ff c (serialize pkts) = R_done s shown e ->
+  (has_code 9001 (k_custom s) <-> exists n, cc_cdps (rc_counts c) = Some n /\ N.of_nat (length pkts) <> n) /\
+  (has_code 9002 (k_custom s) <-> exists n, cc_pht (rc_counts c) = Some n /\ gt_trigger_bit 4 (sel_pkts (rc_scan c) pkts) <> n).
+Proof. exact (fun c pkts ff s shown e H1 H2 H3 => c20_whole_run c pkts (eq_refl : Gen.Facts.cdp_offset_sampled_after = true) H1 H2 H3 ff s shown e). Qed.
+
 Print Assumptions C20_cdps.
 Print Assumptions C20_triggers_pht.
 Print Assumptions C20_rdh_version.
@@ -71,3 +82,4 @@ Print Assumptions C20_period_distance.
 Print Assumptions C20_period_pairs.
 Print Assumptions C20_period_bookkeeping.
 Print Assumptions C20_period_out_of_range.
+Print Assumptions C20_whole_run_counts.
